@@ -162,11 +162,45 @@ func downloaded(s *synth, res *runResult) [][]int {
 
 // emitted is one callback of mediacommon's mpegts.Reader.
 type emitted struct {
-	Track  int
+	Track  int // index into the stream's supported tracks; -1: a PES of an unsupported elementary stream
+	PMT    int // position of the PES's PID in the PMT (Reader.Tracks())
 	RawPTS int64
 	RawDTS int64
 	ID     int
 	Seg    int
+}
+
+// supportedOnly keeps the callbacks the Client registers (H264, MPEG-4 audio)
+func supportedOnly(em []emitted) []emitted {
+	var out []emitted
+	for _, e := range em {
+		if e.Track >= 0 {
+			out = append(out, e)
+		}
+	}
+	return out
+}
+
+func pmtCodecName(c mpegts.Codec) string {
+	switch c.(type) {
+	case *mpegts.CodecH264:
+		return "h264"
+	case *mpegts.CodecMPEG4Audio:
+		return "aac"
+	case *mpegts.CodecMPEG1Audio:
+		return "mp3"
+	case *mpegts.CodecAC3:
+		return "ac3"
+	case *mpegts.CodecOpus:
+		return "opus"
+	case *mpegts.CodecH265:
+		return "h265"
+	case *mpegts.CodecMPEG4Video:
+		return "mpeg4video"
+	case *mpegts.CodecMPEG1Video:
+		return "mpeg1video"
+	}
+	return fmt.Sprintf("%T", c)
 }
 
 type swReader struct{ r io.Reader }
@@ -197,9 +231,25 @@ func referenceParse(s *synth, si int, segIdx []int) ([]emitted, error) {
 		return nil, err
 	}
 	cur := segIdx[0]
+	// the PMT the Reader found must be the one the description lists, in order
+	want := ss.desc.pmt()
+	if len(want) != len(rd.Tracks()) {
+		return nil, fmt.Errorf("the reference reader found %d PMT entries, the description has %d", len(rd.Tracks()), len(want))
+	}
 	sup := 0
-	for _, tr := range rd.Tracks() {
-		tr := tr
+	for k, tr := range rd.Tracks() {
+		k, tr := k, tr
+		if got := pmtCodecName(tr.Codec); got != want[k].Codec {
+			return nil, fmt.Errorf("PMT entry %d is %s, the description has %s", k, got, want[k].Codec)
+		}
+		xrec := func(pts int64, dts int64, units [][]byte) error {
+			id, ok := s.xids[hashUnits(units)]
+			if !ok {
+				id = -1
+			}
+			out = append(out, emitted{Track: -1, PMT: k, RawPTS: pts, RawDTS: dts, ID: id, Seg: cur})
+			return nil
+		}
 		switch tr.Codec.(type) {
 		case *mpegts.CodecH264:
 			idx := sup
@@ -209,7 +259,7 @@ func referenceParse(s *synth, si int, segIdx []int) ([]emitted, error) {
 				if !ok {
 					id = -1
 				}
-				out = append(out, emitted{Track: idx, RawPTS: pts, RawDTS: dts, ID: id, Seg: cur})
+				out = append(out, emitted{Track: idx, PMT: k, RawPTS: pts, RawDTS: dts, ID: id, Seg: cur})
 				return nil
 			})
 		case *mpegts.CodecMPEG4Audio:
@@ -220,9 +270,21 @@ func referenceParse(s *synth, si int, segIdx []int) ([]emitted, error) {
 				if !ok {
 					id = -1
 				}
-				out = append(out, emitted{Track: idx, RawPTS: pts, RawDTS: pts, ID: id, Seg: cur})
+				out = append(out, emitted{Track: idx, PMT: k, RawPTS: pts, RawDTS: pts, ID: id, Seg: cur})
 				return nil
 			})
+		// the Client registers no callback for the following: their PES are recorded here only
+		// so that the model is given the demultiplexer's complete output
+		case *mpegts.CodecMPEG1Audio:
+			rd.OnDataMPEG1Audio(tr, func(pts int64, frames [][]byte) error { return xrec(pts, pts, frames) })
+		case *mpegts.CodecAC3:
+			rd.OnDataAC3(tr, func(pts int64, frame []byte) error { return xrec(pts, pts, [][]byte{frame}) })
+		case *mpegts.CodecOpus:
+			rd.OnDataOpus(tr, func(pts int64, pkts [][]byte) error { return xrec(pts, pts, pkts) })
+		case *mpegts.CodecH265:
+			rd.OnDataH265(tr, func(pts int64, dts int64, au [][]byte) error { return xrec(pts, dts, au) })
+		case *mpegts.CodecMPEG4Video, *mpegts.CodecMPEG1Video:
+			rd.OnDataMPEGxVideo(tr, func(pts int64, frame []byte) error { return xrec(pts, pts, [][]byte{frame}) })
 		}
 	}
 	for i, k := range segIdx {
